@@ -62,7 +62,7 @@ Theorem C20_stop_empties : forall (terminate : pst -> pst), terminate Alive = En
 Proof. exact stop_empties. Qed.
 Print Assumptions C20_stop_empties.
 
-(* any history of start/stop calls (repaired start, fixes/D17): two processes per node; all alive after a start, none after a
+(* any history of start/stop calls (repaired start, fixes/D20): two processes per node; all alive after a start, none after a
    stop; after a stop the modelled components equal those of a network that was never started; start after stop gives the
    process list of the first start *)
 Theorem C20_restartable : forall (spawn terminate : pst -> pst), spawn Fresh = Alive -> terminate Alive = Ended ->
